@@ -134,6 +134,8 @@ pub struct ScenN<const N: usize> {
     conc_pool: Vec<Vec<u8>>,
     conc_clock: u64,
     conc_ts: u64,
+    /// blob file name prefix of scratch storages (`metasweep <seed> <prefix>`); the live storage always uses `t`
+    prefix: Option<String>,
 }
 
 fn parse_meta(s: &str) -> Option<Option<Meta>> {
@@ -176,14 +178,14 @@ impl<const N: usize> ScenN<N> {
                 .build()
                 .unwrap()
         };
-        ScenN { rt, st: None, cfg, dir, data: HashMap::new(), dead: None, keys: Default::default(), snap: HashMap::new(), snap_ids: Default::default(), conc_prev: Vec::new(), conc_pool: Vec::new(), conc_clock: 1, conc_ts: 1000 }
+        ScenN { rt, st: None, cfg, dir, data: HashMap::new(), dead: None, keys: Default::default(), snap: HashMap::new(), snap_ids: Default::default(), conc_prev: Vec::new(), conc_pool: Vec::new(), conc_clock: 1, conc_ts: 1000, prefix: None }
     }
 
     fn builder(&self) -> Builder {
         let c = &self.cfg;
         let mut b = Builder::new()
             .work_dir(&self.dir)
-            .blob_file_name_prefix("t")
+            .blob_file_name_prefix(self.prefix.as_deref().unwrap_or("t"))
             .max_blob_size(c.maxsize)
             .max_data_in_blob(c.maxdata)
             .set_bloom_filter_group_size(c.group)
@@ -1202,6 +1204,28 @@ impl<const N: usize> ScenN<N> {
             if let Some(st) = self.st.take() {
                 let _ = self.rt.block_on(async { tokio::time::timeout(Duration::from_secs(60), st.close()).await });
             }
+            // the operator's way back: the quarantined file is run through the recovery tool into the work directory (the
+            // tool leaves its input where it is); if that blob is torn once more, the next start has to quarantine a file of
+            // the SAME name a second time - and must still come up
+            let qpath = copy.join("corrupted").join(format!("t.{}.blob", bid));
+            if bad.is_none() && served.is_none() && !self.cfg.ignore && qpath.exists() && !bpath.exists() && n % 2 == 0 {
+                if pearl::tools::recovery_blob(&qpath, &bpath, 1, true).is_ok() {
+                    let rec = std::fs::read(&bpath).unwrap_or_default();
+                    if let Some((start, hsz, _, _)) = Self::parse_blob_full(&rec).last().copied() {
+                        // cut inside the header of its last record
+                        std::fs::write(&bpath, &rec[..start + hsz / 2]).unwrap();
+                        let _ = std::fs::remove_file(bpath.with_extension("index"));
+                        self.dir = copy.clone();
+                        let r = self.open(false);
+                        if r != "ok" {
+                            bad = Some(format!("{}: after recovery of the quarantined blob into the work directory and a second torn tail: init {}", what, r));
+                        }
+                        if let Some(st) = self.st.take() {
+                            let _ = self.rt.block_on(async { tokio::time::timeout(Duration::from_secs(60), st.close()).await });
+                        }
+                    }
+                }
+            }
             self.dir = orig.clone();
             if bad.is_some() {
                 break 'outer;
@@ -1231,6 +1255,8 @@ impl<const N: usize> ScenN<N> {
         };
         let live = self.st.take();
         let orig = self.dir.clone();
+        // an optional third token: the file name prefix of the scratch storage (e.g. one that contains dots)
+        self.prefix = toks.get(2).map(|p| p.to_string());
         let scratch = orig.with_file_name(format!("{}-meta", orig.file_name().unwrap().to_string_lossy()));
         let _ = std::fs::remove_dir_all(&scratch);
         self.dir = scratch.clone();
@@ -1348,6 +1374,7 @@ impl<const N: usize> ScenN<N> {
         let _ = std::fs::remove_dir_all(&scratch);
         self.dir = orig;
         self.st = live;
+        self.prefix = None;
         match bad {
             None => format!("sweep ok n={}", n),
             Some(b) => format!("sweep bad {}", b),
@@ -1746,7 +1773,8 @@ impl<const N: usize> ScenN<N> {
         let mut n = 0usize;
         let mut bad: Option<String> = None;
         'outer: for (ci, (bp, off, mask)) in chosen.iter().enumerate() {
-            let mode = ci % 3; // 0: index kept, 1: index removed, 2: index removed + validation on
+            // 0: index kept, 1: index removed, 2: index removed + validation on, 3: index kept + validation on
+            let mode = ci % 4;
             Self::copy_dir(&orig, &copy);
             let target = copy.join(bp.file_name().unwrap());
             let mut bytes = std::fs::read(&target).unwrap();
@@ -1754,10 +1782,10 @@ impl<const N: usize> ScenN<N> {
                 bytes[off + i] ^= m;
             }
             std::fs::write(&target, &bytes).unwrap();
-            if mode >= 1 {
+            if mode == 1 || mode == 2 {
                 let _ = std::fs::remove_file(target.with_extension("index"));
             }
-            self.cfg.validate = mode == 2;
+            self.cfg.validate = mode >= 2;
             self.dir = copy.clone();
             n += 1;
             let r = self.open(false);
@@ -2391,6 +2419,8 @@ impl<const N: usize> ScenN<N> {
                     // capture the duration)
                     Some("slow:900") => st.force_update_active_blob(|_| { std::thread::sleep(Duration::from_millis(900)); false }).await,
                     Some("slow:1300") => st.force_update_active_blob(|_| { std::thread::sleep(Duration::from_millis(1300)); false }).await,
+                    // "arbitrary predicates": one that panics (it runs inside the worker task)
+                    Some("panic") => st.force_update_active_blob(|_| panic!("force_update_active_blob predicate panicked")).await,
                     _ => return "bad-op".into(),
                 };
                 if !toks.contains(&"@nodrain") {
